@@ -48,8 +48,7 @@ func (f *Gethash) Call(s *slip.Scope, args slip.List, depth int) (result slip.Ob
 	if !ok {
 		slip.TypePanic(s, depth, "hash-table", args[1], "hash-table")
 	}
-	slip.CheckHashKey(s, depth, args[0])
-	v, has := ht[args[0]]
+	v, has := ht[ht.Key(s, depth, args[0])]
 	var ho slip.Object
 	if has {
 		ho = slip.True
@@ -64,6 +63,5 @@ func (f *Gethash) Place(s *slip.Scope, args slip.List, value slip.Object) {
 	if !ok {
 		slip.TypePanic(s, 0, "hash-table", args[1], "hash-table")
 	}
-	slip.CheckHashKey(s, 0, args[0])
-	ht[args[0]] = value
+	ht[ht.Key(s, 0, args[0])] = value
 }
